@@ -1,7 +1,598 @@
-//! `access` driver
+//! `access` driver (property C18): renders abstract permissions / governance documents (as
+//! enumerated by TLC from spec/AccessControl.tla, or seeded random ones over a larger alphabet) as
+//! real XML, loads them through the real parsers of the crate and asks the real decision code
+//! (`check_create_*`, `check_remote_*`, `check_entity`) every query of the run's query universe;
+//! and, for the signature clause, feeds committed signed fixtures and byte-level alterations of
+//! them into the real S/MIME verification and `validate_local_permissions`.
+//!
+//! modes:  replay --in specs.jsonl | random --seed --runs --events [--tier --fixtures DIR]
+//!         render --in fixtures.json --out DIR   (writes the XML that was signed once; not used by checks)
 use std::collections::HashMap;
 
-pub fn main(_mode: &str, _opt: &HashMap<String, String>) -> i32 {
-    eprintln!("access driver: not implemented");
-    2
+use rand::{rngs::StdRng, Rng, SeedableRng};
+use rustdds::verif::access_rig::AccessRig;
+use serde::{Deserialize, Serialize};
+use serde_json::{json, Value};
+
+use crate::util;
+
+#[derive(Serialize, Deserialize, Clone, Debug)]
+pub struct ARunSpec {
+  pub kind: String, // "dec" | "sig"
+  // ---- dec
+  #[serde(default)]
+  pub doc: Value, // {grants:[..], gov:[..]}
+  #[serde(default)]
+  pub subj: String, // "S1" | "S2"
+  #[serde(default)]
+  pub q: Value, // {doms:[..], topics:[..], parts:[[..],..]}  (product) or {list:[{op,dom,topic,parts}]}
+  #[serde(default)]
+  pub style: u32, // rendering style (time zone notation, white space)
+  // ---- sig
+  #[serde(default)]
+  pub fixdir: String,
+  #[serde(default)]
+  pub perm: String, // permissions fixture name
+  #[serde(default)]
+  pub gov: String, // governance fixture name
+  #[serde(default)]
+  pub target: String, // "perm" | "gov": which blob is altered
+  #[serde(default)]
+  pub alts: Value, // {mode:"bytes", from, to, xors:[..], del:bool, ins:bool} | {mode:"special"}
+}
+
+pub const S1: &str = "CN=participant1_common_name,O=Example Organization";
+pub const S2: &str = "CN=participant2_common_name,O=Example Organization";
+
+fn subject_dn(s: &str) -> &str {
+  match s {
+    "S1" => S1,
+    "S2" => S2,
+    other => other,
+  }
+}
+
+// ------------------------------------------------------------------ rendering
+fn s(v: &Value) -> &str {
+  v.as_str().unwrap_or("")
+}
+fn arr(v: &Value) -> &[Value] {
+  v.as_array().map(|a| a.as_slice()).unwrap_or(&[])
+}
+
+fn render_time(which: &str, style: u32) -> String {
+  let base = match which {
+    "past1" => "2001-01-01T00:00:00",
+    "past2" => "2002-01-01T00:00:00",
+    "fut1" => "2998-01-01T00:00:00",
+    _ => "2999-01-01T00:00:00",
+  };
+  match style % 3 {
+    0 => base.to_string(),
+    1 => format!("{base}Z"),
+    _ => format!("{base}+00:00"),
+  }
+}
+
+fn render_criteria(tag: &str, crits: &[Value], out: &mut String) {
+  for c in crits {
+    out.push_str(&format!("        <{tag}>\n          <topics>\n"));
+    for t in arr(&c["topics"]) {
+      out.push_str(&format!("            <topic>{}</topic>\n", s(t)));
+    }
+    out.push_str("          </topics>\n");
+    if !arr(&c["parts"]).is_empty() {
+      out.push_str("          <partitions>\n");
+      for p in arr(&c["parts"]) {
+        out.push_str(&format!("            <partition>{}</partition>\n", s(p)));
+      }
+      out.push_str("          </partitions>\n");
+    }
+    out.push_str(&format!("        </{tag}>\n"));
+  }
+}
+
+fn render_domains(doms: &[Value], out: &mut String) {
+  out.push_str("        <domains>\n");
+  for d in doms {
+    let (a, b) = (d["a"].as_i64().unwrap_or(0), d["b"].as_i64().unwrap_or(0));
+    match s(&d["k"]) {
+      "id" => out.push_str(&format!("          <id>{a}</id>\n")),
+      "range" => out.push_str(&format!("          <id_range><min>{a}</min><max>{b}</max></id_range>\n")),
+      "min" => out.push_str(&format!("          <id_range><min>{a}</min></id_range>\n")),
+      _ => out.push_str(&format!("          <id_range><max>{b}</max></id_range>\n")),
+    }
+  }
+  out.push_str("        </domains>\n");
+}
+
+pub fn render_permissions(doc: &Value, style: u32) -> String {
+  let mut o = String::new();
+  o.push_str("<?xml version=\"1.0\" encoding=\"UTF-8\"?>\n<dds xmlns:xsi=\"http://www.w3.org/2001/XMLSchema-instance\" xsi:noNamespaceSchemaLocation=\"http://www.omg.org/spec/DDS-Security/20170901/omg_shared_ca_permissions.xsd\">\n  <permissions>\n");
+  for (i, g) in arr(&doc["grants"]).iter().enumerate() {
+    o.push_str(&format!("    <grant name=\"g{i}\">\n      <subject_name>{}</subject_name>\n", subject_dn(s(&g["subj"]))));
+    let (nb, na) = match s(&g["val"]) {
+      "valid" => ("past1", "fut2"),
+      "expired" => ("past1", "past2"),
+      _ => ("fut1", "fut2"),
+    };
+    o.push_str(&format!(
+      "      <validity>\n        <not_before>{}</not_before>\n        <not_after>{}</not_after>\n      </validity>\n",
+      render_time(nb, style),
+      render_time(na, style)
+    ));
+    for r in arr(&g["rules"]) {
+      let tag = if r["allow"].as_bool().unwrap_or(false) { "allow_rule" } else { "deny_rule" };
+      o.push_str(&format!("      <{tag}>\n"));
+      render_domains(arr(&r["doms"]), &mut o);
+      render_criteria("publish", arr(&r["pub"]), &mut o);
+      render_criteria("subscribe", arr(&r["sub"]), &mut o);
+      render_criteria("relay", arr(&r["relay"]), &mut o);
+      o.push_str(&format!("      </{tag}>\n"));
+    }
+    o.push_str(&format!("      <default>{}</default>\n    </grant>\n", s(&g["def"])));
+  }
+  o.push_str("  </permissions>\n</dds>\n");
+  o
+}
+
+pub fn render_governance(doc: &Value, style: u32) -> String {
+  let b = |v: &Value| {
+    let t = v.as_bool().unwrap_or(true);
+    match (style % 3, t) {
+      (0, true) => "true",
+      (0, false) => "false",
+      (1, true) => "TRUE",
+      (1, false) => "FALSE",
+      (_, true) => "1",
+      (_, false) => "0",
+    }
+  };
+  let mut o = String::new();
+  o.push_str("<?xml version=\"1.0\" encoding=\"UTF-8\"?>\n<dds xmlns:xsi=\"http://www.w3.org/2001/XMLSchema-instance\" xsi:noNamespaceSchemaLocation=\"http://www.omg.org/spec/DDS-SECURITY/20170901/omg_shared_ca_governance.xsd\">\n  <domain_access_rules>\n    <domain_rule>\n      <domains>\n        <id_range><min>0</min><max>230</max></id_range>\n      </domains>\n      <allow_unauthenticated_participants>false</allow_unauthenticated_participants>\n      <enable_join_access_control>true</enable_join_access_control>\n      <discovery_protection_kind>NONE</discovery_protection_kind>\n      <liveliness_protection_kind>NONE</liveliness_protection_kind>\n      <rtps_protection_kind>NONE</rtps_protection_kind>\n      <topic_access_rules>\n");
+  for r in arr(&doc["gov"]) {
+    o.push_str(&format!(
+      "        <topic_rule>\n          <topic_expression>{}</topic_expression>\n          <enable_discovery_protection>false</enable_discovery_protection>\n          <enable_liveliness_protection>false</enable_liveliness_protection>\n          <enable_read_access_control>{}</enable_read_access_control>\n          <enable_write_access_control>{}</enable_write_access_control>\n          <metadata_protection_kind>NONE</metadata_protection_kind>\n          <data_protection_kind>NONE</data_protection_kind>\n        </topic_rule>\n",
+      s(&r["expr"]),
+      b(&r["read"]),
+      b(&r["write"])
+    ));
+  }
+  o.push_str("      </topic_access_rules>\n    </domain_rule>\n  </domain_access_rules>\n</dds>\n");
+  o
+}
+
+// ------------------------------------------------------------------ queries
+const DIRECT_OPS: [&str; 3] = ["entity_writer", "entity_reader", "entity_topic"];
+const PUBLIC_OPS: [&str; 6] = ["create_writer", "create_reader", "create_topic", "remote_writer", "remote_reader", "remote_topic"];
+
+fn queries(q: &Value) -> Vec<(String, u16, String, Vec<String>)> {
+  let mut out = vec![];
+  if let Some(list) = q.get("list").and_then(|l| l.as_array()) {
+    for e in list {
+      out.push((
+        s(&e["op"]).to_string(),
+        e["dom"].as_u64().unwrap_or(0) as u16,
+        s(&e["topic"]).to_string(),
+        arr(&e["parts"]).iter().map(|p| s(p).to_string()).collect(),
+      ));
+    }
+    return out;
+  }
+  for d in arr(&q["doms"]) {
+    let d = d.as_u64().unwrap_or(0) as u16;
+    for t in arr(&q["topics"]) {
+      for op in PUBLIC_OPS {
+        out.push((op.to_string(), d, s(t).to_string(), vec![]));
+      }
+      for p in arr(&q["parts"]) {
+        let parts: Vec<String> = arr(p).iter().map(|x| s(x).to_string()).collect();
+        for op in DIRECT_OPS {
+          out.push((op.to_string(), d, s(t).to_string(), parts.clone()));
+        }
+      }
+    }
+  }
+  out
+}
+
+fn log_checks(rig: &AccessRig, handle: Option<u32>, q: &Value, ev: &mut Vec<Value>) {
+  for (op, dom, topic, parts) in queries(q) {
+    let (raw, _detail) = match handle {
+      Some(h) => rig.check(h, &op, dom, &topic, &parts),
+      None => ("no_handle", String::new()),
+    };
+    let out = if raw == "allow" { "allow" } else { "deny" };
+    ev.push(json!({"ev":"Check","op":op,"dom":dom,"topic":topic,"parts":parts,"out":out,"raw":raw}));
+  }
+}
+
+fn run_dec(k: usize, sp: &ARunSpec, ev: &mut Vec<Value>) {
+  ev.push(json!({"ev":"Reset","run":k,"kind":"dec","doc":sp.doc,"subj":sp.subj}));
+  let pxml = render_permissions(&sp.doc, sp.style);
+  let gxml = render_governance(&sp.doc, sp.style / 3);
+  let mut rig = AccessRig::new();
+  let inst = rig.install_unsigned(subject_dn(&sp.subj), &pxml, &gxml, 0);
+  let handle = match &inst {
+    Ok((h, g)) => {
+      ev.push(json!({"ev":"Install","ok":true,"has_grant":g,"err":""}));
+      Some(*h)
+    }
+    Err(e) => {
+      ev.push(json!({"ev":"Install","ok":false,"has_grant":false,"err":e.chars().take(200).collect::<String>()}));
+      None
+    }
+  };
+  log_checks(&rig, handle, &sp.q, ev);
+}
+
+// ------------------------------------------------------------------ signature clause
+fn canonical(xml: &[u8]) -> Vec<u8> {
+  // what `openssl smime -sign -text` signs: the text/plain MIME entity with CRLF line ends
+  let mut o = b"Content-Type: text/plain\r\n\r\n".to_vec();
+  let mut prev = 0u8;
+  for &b in xml {
+    if b == b'\n' && prev != b'\r' {
+      o.push(b'\r');
+    }
+    o.push(b);
+    prev = b;
+  }
+  o
+}
+
+struct Fix {
+  dir: String,
+}
+impl Fix {
+  fn read(&self, name: &str) -> Vec<u8> {
+    std::fs::read(format!("{}/{}", self.dir, name)).unwrap_or_else(|e| panic!("fixture {}/{name}: {e}", self.dir))
+  }
+  fn path(&self, name: &str) -> String {
+    format!("{}/{}", self.dir, name)
+  }
+}
+
+fn split_parts(blob: &[u8]) -> Option<(usize, usize)> {
+  // (start of 2nd boundary line, end of blob): positions to splice signature parts between fixtures
+  let text = String::from_utf8_lossy(blob);
+  let bstart = text.find("boundary=\"")? + 10;
+  let bend = bstart + text[bstart..].find('"')?;
+  let boundary = format!("--{}", &text[bstart..bend]);
+  let first = text.find(&boundary)?;
+  let second = first + boundary.len() + text[first + boundary.len()..].find(&boundary)?;
+  Some((second, blob.len()))
+}
+
+#[allow(clippy::too_many_arguments)]
+fn verify_event(
+  alt: Value,
+  blob: &[u8],
+  ca_pem: &[u8],
+  signer: &str,
+  ca: &str,
+  signed_content: &[u8],
+  pristine: bool,
+  ev: &mut Vec<Value>,
+) -> bool {
+  let r = AccessRig::verify_blob(blob, ca_pem);
+  let (out, same) = match &r {
+    Ok(c) => ("accepted", c.as_slice() == signed_content),
+    Err(e) if e == "panic" => ("panic", false),
+    Err(_) => ("refused", false),
+  };
+  ev.push(json!({"ev":"Verify","alt":alt,"signer":signer,"ca":ca,"out":out,"same":same,"pristine":pristine}));
+  out == "accepted"
+}
+
+/// full validate_local_permissions with (possibly altered) blobs, then the decisions
+#[allow(clippy::too_many_arguments)]
+fn validate_event(k: usize, tag: &str, fx: &Fix, perm_blob: &[u8], gov_blob: &[u8], ca_file: &str, q: Option<&Value>, alt: Value, ev: &mut Vec<Value>) {
+  let tmp = std::env::temp_dir().join(format!("vh_access_{}_{k}_{tag}", std::process::id()));
+  std::fs::create_dir_all(&tmp).unwrap();
+  let pp = tmp.join("p.p7s");
+  let gp = tmp.join("g.p7s");
+  std::fs::write(&pp, perm_blob).unwrap();
+  std::fs::write(&gp, gov_blob).unwrap();
+  let mut rig = AccessRig::new();
+  let r = rig.validate_local(&fx.path(ca_file), gp.to_str().unwrap(), pp.to_str().unwrap(), &fx.path("identity_cert.pem"), 0);
+  let _ = std::fs::remove_dir_all(&tmp);
+  match r {
+    Ok(h) => {
+      ev.push(json!({"ev":"Validate","alt":alt,"ok":true,"has_grant":rig.has_grant(h),"err":""}));
+      if let Some(q) = q {
+        log_checks(&rig, Some(h), q, ev);
+      }
+    }
+    Err(e) => ev.push(json!({"ev":"Validate","alt":alt,"ok":false,"has_grant":false,"err":e.chars().take(160).collect::<String>()})),
+  }
+}
+
+fn run_sig(k: usize, sp: &ARunSpec, ev: &mut Vec<Value>) {
+  let fx = Fix { dir: sp.fixdir.clone() };
+  let meta: Value = serde_json::from_slice(&fx.read("fixtures.json")).expect("fixtures.json");
+  let doc = json!({"grants": meta[&sp.perm]["grants"], "gov": meta[&sp.gov]["gov"]});
+  ev.push(json!({"ev":"Reset","run":k,"kind":"sig","doc":doc,"subj":"S1","perm":sp.perm,"gov":sp.gov,"target":sp.target}));
+  let own_ca = fx.read("permissions_ca.cert.pem");
+  let foreign_ca = fx.read("foreign_ca.cert.pem");
+  let perm_blob = fx.read(&format!("{}.p7s", sp.perm));
+  let gov_blob = fx.read(&format!("{}.p7s", sp.gov));
+  let tname = if sp.target == "gov" { &sp.gov } else { &sp.perm };
+  let blob = if sp.target == "gov" { gov_blob.clone() } else { perm_blob.clone() };
+  let content = canonical(&fx.read(&format!("{tname}.xml")));
+  let q = json!({"doms":[0,1],"topics":["A","AB","B"],"parts":[[], ["A"]]});
+  let with = |alt_blob: &[u8]| -> (Vec<u8>, Vec<u8>) {
+    if sp.target == "gov" {
+      (perm_blob.clone(), alt_blob.to_vec())
+    } else {
+      (alt_blob.to_vec(), gov_blob.clone())
+    }
+  };
+  match s(&sp.alts["mode"]) {
+    "special" => {
+      // pristine: accepted with exactly the signed content, and decisions as the document says
+      verify_event(json!({"k":"pristine"}), &blob, &own_ca, "own", "own", &content, true, ev);
+      validate_event(k, "pr", &fx, &perm_blob, &gov_blob, "permissions_ca.cert.pem", Some(&q), json!({"k":"pristine"}), ev);
+      // configured CA is another one
+      verify_event(json!({"k":"other_ca_configured"}), &blob, &foreign_ca, "own", "foreign", &content, false, ev);
+      validate_event(k, "fc", &fx, &perm_blob, &gov_blob, "foreign_ca.cert.pem", Some(&q), json!({"k":"other_ca_configured"}), ev);
+      // the same document signed by a foreign CA / by the participant's own identity key
+      for (suffix, signer) in [("foreign", "foreign"), ("identity", "identity")] {
+        let b = fx.read(&format!("{tname}.{suffix}.p7s"));
+        verify_event(json!({"k":"signed_by","who":signer}), &b, &own_ca, signer, "own", &content, false, ev);
+        let (p, g) = with(&b);
+        validate_event(k, suffix, &fx, &p, &g, "permissions_ca.cert.pem", Some(&q), json!({"k":"signed_by","who":signer}), ev);
+        if signer == "foreign" {
+          verify_event(json!({"k":"signed_by_and_configured","who":signer}), &b, &foreign_ca, "foreign", "foreign", &content, true, ev);
+        }
+      }
+      // a valid signature of the right CA over OTHER content: signature part of every other fixture of
+      // the same kind spliced under this content
+      for other in arr(&meta["_order"]) {
+        let other = s(other);
+        if other == tname || meta[other].get("grants").is_some() != meta[tname.as_str()].get("grants").is_some() {
+          continue;
+        }
+        let ob = fx.read(&format!("{other}.p7s"));
+        if let (Some((cut_t, _)), Some((cut_o, end_o))) = (split_parts(&blob), split_parts(&ob)) {
+          // boundaries differ per file: rewrite the other's boundary to ours
+          let text_t = String::from_utf8_lossy(&blob).to_string();
+          let text_o = String::from_utf8_lossy(&ob).to_string();
+          let bnd = |t: &str| {
+            let a = t.find("boundary=\"").unwrap() + 10;
+            t[a..a + t[a..].find('"').unwrap()].to_string()
+          };
+          let sigpart = text_o[cut_o..end_o].replace(&bnd(&text_o), &bnd(&text_t));
+          let mut spliced = blob[..cut_t].to_vec();
+          spliced.extend_from_slice(sigpart.as_bytes());
+          let other_content = canonical(&fx.read(&format!("{other}.xml")));
+          // accepted would mean: content of `tname` returned under a signature made over `other`
+          verify_event(json!({"k":"splice","sig_of":other}), &spliced, &own_ca, "own", "own", &other_content, false, ev);
+          let (p, g) = with(&spliced);
+          validate_event(k, "sp", &fx, &p, &g, "permissions_ca.cert.pem", Some(&q), json!({"k":"splice","sig_of":other}), ev);
+        }
+      }
+      // truncations
+      for cut in [0usize, 1, blob.len() / 4, blob.len() / 2, blob.len() * 3 / 4, blob.len() - 40, blob.len() - 1] {
+        let tb = &blob[..cut.min(blob.len())];
+        verify_event(json!({"k":"truncate","at":cut}), tb, &own_ca, "own", "own", &content, false, ev);
+        let (p, g) = with(tb);
+        validate_event(k, "tr", &fx, &p, &g, "permissions_ca.cert.pem", Some(&q), json!({"k":"truncate","at":cut}), ev);
+      }
+    }
+    _ => {
+      let from = sp.alts["from"].as_u64().unwrap_or(0) as usize;
+      let to = (sp.alts["to"].as_u64().unwrap_or(0) as usize).min(blob.len());
+      let xors: Vec<u8> = arr(&sp.alts["xors"]).iter().map(|x| x.as_u64().unwrap_or(1) as u8).collect();
+      let structural = sp.alts["structural"].as_bool().unwrap_or(false);
+      let every = sp.alts["every"].as_u64().unwrap_or(1).max(1) as usize;
+      let mut n_acc = 0usize;
+      let qmini = json!({"doms":[0],"topics":["A","B"],"parts":[["A"]]});
+      for pos in from..to {
+        let mut alts: Vec<(Value, Vec<u8>)> = vec![];
+        for x in &xors {
+          let mut b = blob.clone();
+          b[pos] ^= x;
+          alts.push((json!({"k":"xor","pos":pos,"x":x}), b));
+        }
+        if structural {
+          let mut b = blob.clone();
+          b.remove(pos);
+          alts.push((json!({"k":"del","pos":pos}), b));
+          let mut b = blob.clone();
+          b.insert(pos, blob[pos]);
+          alts.push((json!({"k":"dup","pos":pos}), b));
+          let mut b = blob.clone();
+          b[pos] = if blob[pos] == b' ' { b'x' } else { b' ' };
+          alts.push((json!({"k":"set","pos":pos}), b));
+        }
+        for (alt, b) in alts {
+          // 1. the verification mechanism itself; 2. the public entry point with the same blob (its
+          // verdict must not be more lenient); decisions are queried for every `every`-th accepted one
+          let accepted = verify_event(alt.clone(), &b, &own_ca, "own", "own", &content, false, ev);
+          let (p, g) = with(&b);
+          let do_checks = accepted && n_acc % every == 0;
+          if accepted {
+            n_acc += 1;
+          }
+          validate_event(k, "alt", &fx, &p, &g, "permissions_ca.cert.pem", if do_checks { Some(&qmini) } else { None }, alt, ev);
+        }
+      }
+    }
+  }
+}
+
+pub fn run_one(k: usize, sp: &ARunSpec, ev: &mut Vec<Value>) -> Vec<Vec<u8>> {
+  match sp.kind.as_str() {
+    "sig" => run_sig(k, sp, ev),
+    _ => run_dec(k, sp, ev),
+  }
+  vec![]
+}
+
+// ------------------------------------------------------------------ random documents
+const NAMES: [&str; 6] = ["A", "AB", "B", "BA", "ABB", "C"];
+const PATS: [&str; 12] = ["A", "A*", "*", "?B", "[AB]", "AB", "*B", "A?", "[!A]", "??", "A*B", "[A-B]*"];
+
+fn pick<'a>(r: &mut StdRng, xs: &[&'a str]) -> &'a str {
+  xs[r.gen_range(0..xs.len())]
+}
+
+fn rnd_crit(r: &mut StdRng) -> Value {
+  let nt = if r.gen_bool(0.7) { 1 } else { 2 };
+  let np = [0, 0, 1, 1, 2][r.gen_range(0..5)];
+  let topics: Vec<&str> = (0..nt).map(|_| pick(r, &PATS)).collect();
+  let parts: Vec<&str> = (0..np).map(|_| pick(r, &PATS)).collect();
+  json!({"topics":topics,"parts":parts})
+}
+
+fn rnd_dom(r: &mut StdRng) -> Value {
+  let a = r.gen_range(0..5);
+  let b = r.gen_range(0..5);
+  match r.gen_range(0..5) {
+    0 | 1 => json!({"k":"id","a":a,"b":0}),
+    2 => json!({"k":"range","a":a,"b":b}),
+    3 => json!({"k":"min","a":a,"b":0}),
+    _ => json!({"k":"max","a":0,"b":b}),
+  }
+}
+
+fn rnd_rule(r: &mut StdRng) -> Value {
+  let nd = if r.gen_bool(0.6) { 1 } else { 2 };
+  let doms: Vec<Value> = (0..nd).map(|_| if r.gen_bool(0.4) { json!({"k":"min","a":0,"b":0}) } else { rnd_dom(r) }).collect();
+  let mut lists = vec![];
+  for _ in 0..3 {
+    let n = [0, 1, 1, 2][r.gen_range(0..4)];
+    lists.push((0..n).map(|_| rnd_crit(r)).collect::<Vec<Value>>());
+  }
+  json!({"allow": r.gen_bool(0.5), "doms": doms, "pub": lists[0], "sub": lists[1], "relay": if r.gen_bool(0.5) { json!([]) } else { json!(lists[2]) }})
+}
+
+fn rnd_doc(r: &mut StdRng) -> Value {
+  let ng = r.gen_range(1..=3);
+  let grants: Vec<Value> = (0..ng)
+    .map(|_| {
+      let nr = r.gen_range(1..=3);
+      let rules: Vec<Value> = (0..nr).map(|_| rnd_rule(r)).collect();
+      let val = ["valid", "valid", "valid", "expired", "future"][r.gen_range(0..5)];
+      json!({"subj": if r.gen_bool(0.7) {"S1"} else {"S2"},
+             "val": val,
+             "def": if r.gen_bool(0.5) {"ALLOW"} else {"DENY"},
+             "rules": rules})
+    })
+    .collect();
+  let ngov = r.gen_range(1..=3); // the schema demands at least one topic rule
+  let gov: Vec<Value> = (0..ngov).map(|_| json!({"expr": pick(r, &PATS), "read": r.gen_bool(0.6), "write": r.gen_bool(0.6)})).collect();
+  json!({"grants": grants, "gov": gov})
+}
+
+pub fn random_specs(seed: u64, runs: usize, events: usize, tier: &str, fixdir: &str) -> Vec<ARunSpec> {
+  let mut r = StdRng::seed_from_u64(seed ^ 0xacce55);
+  let mut v = vec![];
+  let blank = |kind: &str| ARunSpec { kind: kind.into(), doc: Value::Null, subj: String::new(), q: Value::Null, style: 0, fixdir: String::new(), perm: String::new(), gov: String::new(), target: String::new(), alts: Value::Null };
+  for _ in 0..runs {
+    let doc = rnd_doc(&mut r);
+    let mut list = vec![];
+    for _ in 0..events {
+      let np = [0, 1, 1, 2][r.gen_range(0..4)];
+      let parts: Vec<&str> = (0..np).map(|_| pick(&mut r, &NAMES)).collect();
+      let direct = r.gen_bool(0.6);
+      let op = if direct { DIRECT_OPS[r.gen_range(0..3)] } else { PUBLIC_OPS[r.gen_range(0..6)] };
+      list.push(json!({"op":op,"dom":r.gen_range(0..6),"topic":pick(&mut r, &NAMES),"parts": if direct { json!(parts) } else { json!([]) }}));
+    }
+    let mut sp = blank("dec");
+    sp.doc = doc;
+    sp.subj = if r.gen_bool(0.8) { "S1".into() } else { "S2".into() };
+    sp.q = json!({"list": list});
+    sp.style = r.gen_range(0..9);
+    v.push(sp);
+  }
+  // signature clause: committed fixtures, every byte position
+  if !fixdir.is_empty() {
+    let meta: Value = serde_json::from_slice(&std::fs::read(format!("{fixdir}/fixtures.json")).expect("fixtures.json")).expect("fixtures.json");
+    let order: Vec<String> = arr(&meta["_order"]).iter().map(|x| s(x).to_string()).collect();
+    let perms: Vec<&String> = order.iter().filter(|n| meta[n.as_str()].get("grants").is_some()).collect();
+    let govs: Vec<&String> = order.iter().filter(|n| meta[n.as_str()].get("gov").is_some()).collect();
+    let thorough = tier == "thorough";
+    let mut targets: Vec<(String, String, String)> = vec![];
+    for (i, p) in perms.iter().enumerate() {
+      targets.push((p.to_string(), govs[i % govs.len()].to_string(), "perm".into()));
+    }
+    for (i, g) in govs.iter().enumerate() {
+      targets.push((perms[i % perms.len()].to_string(), g.to_string(), "gov".into()));
+    }
+    for (ti, (p, g, target)) in targets.iter().enumerate() {
+      let mut sp = blank("sig");
+      sp.fixdir = fixdir.into();
+      sp.perm = p.clone();
+      sp.gov = g.clone();
+      sp.target = target.clone();
+      sp.alts = json!({"mode":"special"});
+      v.push(sp.clone());
+      // quick: full byte sweep of the first permissions and the first governance fixture with two
+      // xor masks; thorough: every fixture, all eight bit flips + delete / duplicate / overwrite
+      let first_of_kind = ti == 0 || ti == perms.len();
+      if !thorough && !first_of_kind {
+        continue;
+      }
+      let name = if target == "gov" { g } else { p };
+      let len = std::fs::metadata(format!("{fixdir}/{name}.p7s")).map(|m| m.len() as usize).unwrap_or(0);
+      let chunk = if thorough { 150 } else { 400 };
+      let mut from = 0;
+      while from < len {
+        let mut c = sp.clone();
+        c.alts = if thorough {
+          json!({"mode":"bytes","from":from,"to":from+chunk,"xors":[1,2,4,8,16,32,64,128],"structural":true,"every":4})
+        } else {
+          json!({"mode":"bytes","from":from,"to":from+chunk,"xors":[1,32],"structural":false,"every":1})
+        };
+        v.push(c);
+        from += chunk;
+      }
+    }
+  }
+  v
+}
+
+pub fn main(mode: &str, opt: &HashMap<String, String>) -> i32 {
+  // the crate logs every refused document at error level; keep stderr quiet
+  match mode {
+    "replay" => {
+      let mut specs: Vec<ARunSpec> = util::read_jsonl(&opt["in"]);
+      if let Some(fd) = opt.get("fixtures") {
+        for sp in specs.iter_mut() {
+          if sp.kind == "sig" {
+            sp.fixdir = fd.clone();
+          }
+        }
+      }
+      util::run_parallel(opt, specs, run_one)
+    }
+    "random" => {
+      let specs = random_specs(
+        util::get(opt, "seed", 1),
+        util::get(opt, "runs", 100),
+        util::get(opt, "events", 40),
+        opt.get("tier").map(|s| s.as_str()).unwrap_or("quick"),
+        opt.get("fixtures").map(|s| s.as_str()).unwrap_or(""),
+      );
+      util::run_parallel(opt, specs, run_one)
+    }
+    "render" => {
+      let meta: Value = serde_json::from_slice(&std::fs::read(&opt["in"]).expect("read --in")).expect("json");
+      let out = &opt["out"];
+      std::fs::create_dir_all(out).unwrap();
+      for name in arr(&meta["_order"]) {
+        let name = s(name);
+        let d = &meta[name];
+        let xml = if d.get("grants").is_some() { render_permissions(d, 0) } else { render_governance(d, 0) };
+        std::fs::write(format!("{out}/{name}.xml"), xml).unwrap();
+      }
+      0
+    }
+    _ => {
+      eprintln!("access driver: unknown mode {mode}");
+      2
+    }
+  }
 }
